@@ -58,16 +58,14 @@ in `step`).
   exist").
 * compiled programs are well typed for the computable typing `tauOf`: PROVED in
   `Lemmas/VMBytesTyped.lean` (`visit_codeOK` by induction over the compiler, `build_wellTyped`).
-* NOT proved: (c), (d) hold on every run of a COMPILED program (`Restore slot` is only reached after
-  the `Save slot` of its look-around; the auxiliary stack is only popped by the `EndAtomic` of a
-  `BeginAtomic`). Intended statement:
-
-  -- theorem build_tameLoop : build tree backrefs = .ok b → b.kind = .fancy prog → c.pos ≤ c.len →
-  --   tameLoop c (tauOf prog.body b.nGroups) prog.nSaves prog.body op fuel 0 c.pos (State.new …) 0 = true
-
-  It needs a control-flow invariant of compiled code that the CPS-style `Sim2`/`Big2` development does
-  not expose. Until then `tameLoop` / `okLoop` are computable side conditions (the driver's `capsB`
-  prints `ok=`; the non-vacuity example of `Proofs/C05e.lean` evaluates them by `decide`).
+* (c), (d) hold on every run that the structured machine `Big2` follows to an answer
+  (`Lemmas/VMBytesTame.lean`: `tameOK_of_sstep`, `big2_tame` — `sstep` is only defined where a
+  `Restore` reads a position inside the text, `EndAtomic` finds its entry, delegates stay in the ordinary
+  slots); with `big2_s3` this is every run of a stage-S3 pattern: the stage-S3 byte-level theorems of
+  `Proofs/C05e.lean` carry NO run-time side condition.
+* NOT proved: (c), (d) for compiled programs outside stage S3 (there is no `Big2` derivation for them:
+  F1 territory and non-linear delegated pieces). There `tameLoop` / `okLoop` stay computable side
+  conditions (the driver's `capsB` prints `ok=`).
 -/
 namespace Fancy
 open Utf8 State
